@@ -14,12 +14,15 @@ ended, a process can be started, woken or begin its step, or a simulator is insi
 `get_data` (and will answer).  The proof rests on three further invariants: the awaited time of a
 waiting process is current (`reach_awaitOk`), progress is up to date whenever no step is in flight
 (`reach_upToDate`), an ended process has reached `until` (`reach_doneOk`).
-NOT proved: the same for grouped (tiered) configurations, and a bound on the number of scheduler
-transitions between two steps; those are covered by the correspondence runs and the implementation
+`finitely_many_steps`: in every reachable state that has not failed, a simulator of group depth `d` has
+begun at most `until * max_loop_iterations ^ (d - 1)` steps (all configurations with `WFShape`).
+NOT proved: deadlock freedom for grouped (tiered) configurations, and a bound on the number of
+scheduler transitions between two steps; those are covered by the correspondence runs and the implementation
 monitor (deadlock = idle event loop with unfinished `run()`) only.
 -/
 import MosaikProofs.Sched.Errors
 import MosaikProofs.Sched.Deadlock
+import MosaikProofs.Sched.Bound
 import MosaikProofs.Properties.C01
 namespace Mosaik.C05
 open Mosaik
@@ -85,6 +88,11 @@ theorem await_le_end {cfg : Cfg} (s : State) (p : Sid) (a : TT) (dl : Option Nat
         split
         · exact TT.le_refl _
         · rename_i hn; exact TT.not_lt.mp hn
+
+/-- **finitely many steps** (statement and proof: `Sched/Bound.lean`) -/
+theorem finitely_many_steps {cfg : Cfg} (hw : WFCfg cfg) (hs : WFShape cfg) {s : State} (hr : Reach cfg s) (hnf : s.failed = none)
+    (p : Sid) (hp : p < cfg.n) : (s.sims p).begun.length ≤ cfg.until_ * cfg.maxLoop ^ ((cfg.sim p).depth - 1) :=
+  steps_bounded hw hs hr hnf p hp
 
 /-- **deadlock freedom, flat configurations** (statement and proof: `Sched/Deadlock.lean`) -/
 theorem deadlock_free_flat {cfg : Cfg} (hw : WFCfg cfg) (hs : WFShape cfg) {rank : Sid → Nat} (hfl : Flat cfg rank)
